@@ -29,8 +29,18 @@ pub struct Optimizer<F>(core::marker::PhantomData<F>);
 
 impl<F: Field> Optimizer<F> {
     pub fn optimize(ops: Vec<Op<F>>) -> (Vec<Op<F>>, HashMap<WitnessId, WitnessId>) {
+        Self::optimize_with_input_slots(ops, &[])
+    }
+
+    /// Like [`Self::optimize`]; `input_slots` are the witness slots filled from outside the op
+    /// list (private inputs), which no op defines.
+    pub fn optimize_with_input_slots(
+        ops: Vec<Op<F>>,
+        input_slots: &[WitnessId],
+    ) -> (Vec<Op<F>>, HashMap<WitnessId, WitnessId>) {
         let (ops, rewrite) = Deduplicator::new().run(ops);
-        let ops = MulAddFusion::new(&ops).run(ops);
+        let input_slots: Vec<WitnessId> = input_slots.iter().map(|w| w.resolve(&rewrite)).collect();
+        let ops = MulAddFusion::with_input_slots(&ops, &input_slots).run(ops);
         (ops, rewrite)
     }
 }
